@@ -317,6 +317,14 @@ func rsetCase(o *Out, g *tgen, cr *gen.Rng) {
 			newV = gen.SimpleScalar(cr)
 		}
 	}
+	rsetRun(o, root, pa, rv, before, bm, other, path, key, doSet, newV, family)
+}
+
+// rsetRun performs one Set or Delete on the reflected value rv of *pa at path and judges it (see the
+// head of this file). before / bm: the generic reading of the root and of the container before the
+// operation; other: the entries a second instance has at the same place (may be nil).
+func rsetRun(o *Out, root reflect.Type, pa reflect.Value, rv value.Value, before interface{}, bm, other map[string]interface{},
+	path []rstep, key string, doSet bool, newV interface{}, family string) {
 	what := fmt.Sprintf("Delete(%q)", key)
 	if doSet {
 		what = fmt.Sprintf("Set(%q, %s)", key, canonG(newV))
@@ -359,6 +367,7 @@ func rsetCase(o *Out, g *tgen, cr *gen.Rng) {
 	want, ok1 := norm(exp)
 	// the type reads its own JSON back unchanged (no one-way marshalers, no lossy fields)?
 	selfBefore, ok2 := norm(before)
+	throughTyped := crossesTypedInterface(pa.Elem(), path)
 	// the same operation for the model (generic family only: there `i` on the wire means int64)
 	opLine := ""
 	if family == "generic" {
@@ -446,6 +455,10 @@ func rsetCase(o *Out, g *tgen, cr *gen.Rng) {
 			if !ok1 {
 				// encoding/json cannot put this value there either: a value of the wrong kind
 				o.Tag(tag + "=refused-wrong-kind")
+			} else if throughTyped {
+				// the field's type is hidden behind an interface: whether encoding/json could store the value
+				// there cannot be asked through the root type
+				o.Tag(tag + "=refused-typed-value-behind-interface")
 			} else {
 				o.Tag(tag + "=panic-not-assignable")
 				fail("panic-not-assignable", msg)
@@ -469,6 +482,14 @@ func rsetCase(o *Out, g *tgen, cr *gen.Rng) {
 	afterJSON, err := viaJSON(pa.Interface())
 	if !ok1 || !ok2 || err != nil || selfBefore != canonG(before) {
 		o.Tag(tag + "=skipped-not-representable")
+		return
+	}
+	if throughTyped {
+		// (only the model tie and the view-equals-data clause apply)
+		if view := canonG(rv.Unstructured()); view != canonG(afterJSON) {
+			fail("view-differs-from-data", "the reflected view reads "+view+" but the Go data encodes as "+canonG(afterJSON))
+		}
+		o.Tag(tag + "=typed-value-behind-interface")
 		return
 	}
 	got := canonG(afterJSON)
@@ -513,6 +534,7 @@ func rsetCase(o *Out, g *tgen, cr *gen.Rng) {
 	o.Tag(tag + "=" + clause)
 	fail(clause, "after: "+got+"  expected: "+accept[0])
 }
+
 
 // parentIsGoMap: the value at path p under root (by Go reflection) is a Go map whose elements are
 // structs (not pointers): such elements are not addressable.
@@ -571,10 +593,161 @@ func parentIsGoMap(root reflect.Value, p []rstep) bool {
 	return cur.IsValid() && cur.Kind() == reflect.Map && cur.Type().Elem().Kind() == reflect.Struct
 }
 
+// crossesTypedInterface: on the way to (and including) the container at path p an interface holds a
+// typed Go value (a struct, a pointer, a typed map or slice). Decoding JSON into a fresh instance of the
+// root type gives generic data there, so the expectation cannot be normalised through the type.
+func crossesTypedInterface(root reflect.Value, p []rstep) bool {
+	cur := root
+	typed := false
+	deref := func(v reflect.Value) reflect.Value {
+		for v.IsValid() && (v.Kind() == reflect.Ptr || v.Kind() == reflect.Interface) {
+			if v.IsNil() {
+				return reflect.Value{}
+			}
+			if v.Kind() == reflect.Interface {
+				switch v.Elem().Interface().(type) {
+				case map[string]interface{}, []interface{}, int64, float64, string, bool:
+				default:
+					typed = true
+				}
+			}
+			v = v.Elem()
+		}
+		return v
+	}
+	for i := 0; i <= len(p); i++ {
+		cur = deref(cur)
+		if !cur.IsValid() || i == len(p) {
+			break
+		}
+		s := p[i]
+		switch cur.Kind() {
+		case reflect.Struct:
+			found := false
+			for j := 0; j < cur.NumField(); j++ {
+				f := cur.Type().Field(j)
+				name := strings.Split(f.Tag.Get("json"), ",")[0]
+				if name == "" {
+					name = f.Name
+				}
+				if s.isKey && name == s.key {
+					cur = cur.Field(j)
+					found = true
+					break
+				}
+			}
+			if !found {
+				return typed
+			}
+		case reflect.Map:
+			if !s.isKey {
+				return typed
+			}
+			cur = cur.MapIndex(reflect.ValueOf(s.key).Convert(cur.Type().Key()))
+		case reflect.Slice:
+			if s.isKey || s.index >= cur.Len() {
+				return typed
+			}
+			cur = cur.Index(s.index)
+		default:
+			return typed
+		}
+	}
+	return typed
+}
+
 func shortType(t reflect.Type) string {
 	s := t.String()
 	if len(s) > 400 {
 		s = s[:400] + "..."
 	}
 	return s
+}
+
+// ---- an exhaustive block on one fixed type: every Set (six values) and Delete at every container of the
+// value, for every key of the container and one key that is none
+
+type rxIn struct {
+	X int64  `json:"x"`
+	Z string `json:"z,omitempty"`
+}
+
+type rxOuter struct {
+	A int64                  `json:"a"`
+	B *int64                 `json:"b,omitempty"`
+	C string                 `json:"c,omitempty"`
+	M map[string]rxIn        `json:"m"`
+	G map[string]interface{} `json:"g,omitempty"`
+	N interface{}            `json:"n"`
+	S rxIn                   `json:"s,omitempty"`
+	P *rxIn                  `json:"p"`
+	L []rxIn                 `json:"l,omitempty"`
+	E map[string]*rxIn       `json:"e,omitempty"`
+}
+
+func rsetExhaustive(o *Out) {
+	mkRoot := func(variant int) *rxOuter {
+		b := int64(2)
+		r := &rxOuter{A: 1, B: &b, C: "c", M: map[string]rxIn{"k": {X: 1, Z: "z"}, "o": {X: 2}},
+			G: map[string]interface{}{"q": int64(1), "r": map[string]interface{}{"t": "u"}},
+			N: map[string]interface{}{"x": int64(5)}, S: rxIn{X: 3, Z: "s"}, P: &rxIn{X: 4}, L: []rxIn{{X: 6, Z: "l"}},
+			E: map[string]*rxIn{"k": {X: 7}}}
+		switch variant {
+		case 1: // sparse: nil pointers and maps, empty strings
+			r = &rxOuter{A: 0, M: map[string]rxIn{"k": {}}, N: rxIn{X: 1}, P: nil}
+		case 2: // the interface holds a pointer to a struct, the map of pointers holds a nil
+			r.N = &rxIn{X: 9, Z: "n"}
+			r.E["n"] = nil
+		}
+		return r
+	}
+	values := []interface{}{nil, int64(7), "s", true, map[string]interface{}{}, map[string]interface{}{"x": int64(1)}}
+	for variant := 0; variant < 3; variant++ {
+		probe := mkRoot(variant)
+		rvp, err := value.NewValueReflect(probe)
+		if err != nil {
+			continue
+		}
+		var targets [][]rstep
+		budget := 200
+		collectMaps(rvp, nil, &targets, &budget)
+		for _, path := range targets {
+			view := gen.DeepCopy(rvp.Unstructured())
+			bmp, ok := genericAt(view, path)
+			if !ok {
+				continue
+			}
+			keys := []string{"nokey"}
+			for k := range bmp {
+				keys = append(keys, k)
+			}
+			// the declared names as well (fields omitted from the view)
+			for _, k := range []string{"a", "b", "c", "m", "g", "n", "s", "p", "l", "e", "x", "z"} {
+				if _, has := bmp[k]; !has {
+					keys = append(keys, k)
+				}
+			}
+			sortStrings(keys)
+			for _, key := range keys {
+				for vi := -1; vi < len(values); vi++ {
+					pa := reflect.ValueOf(mkRoot(variant))
+					rv, err := value.NewValueReflect(pa.Interface())
+					if err != nil {
+						continue
+					}
+					before := gen.DeepCopy(rv.Unstructured())
+					bm, ok := genericAt(before, path)
+					if !ok {
+						continue
+					}
+					var newV interface{}
+					if vi >= 0 {
+						newV = values[vi]
+					}
+					rsetRun(o, pa.Type().Elem(), pa, rv, before, bm, nil, path, key, vi >= 0, newV, "generic")
+					o.Tag("rset:exhaustive-block")
+				}
+			}
+		}
+	}
 }
